@@ -237,6 +237,18 @@ class Resp:
         pass
 
 
+class _ReleasedResp:
+    """what the local `resp` may hold at the head of the redirect loop: the previous hop's response, released"""
+
+    log = ("release",)
+
+    def close(self):
+        pass
+
+    def release(self):
+        pass
+
+
 class Hist:
     """the local `history`: count + the responses appended since the cut"""
 
@@ -284,13 +296,21 @@ def redirect_step(u: U):
     _run(u, entry_only=False)
 
 
+@unit("C17", "redirect.final", functions=[f"{MOD}:ClientSession._request"], timeout_ms=20000, max_paths=60000, also=("C18",))
+def redirect_final(u: U):
+    """ClientSession._request from the head of the loop to its end when the response is final (redirects not followed),
+    with the caller's hooks that run AFTER the response was obtained - a tracing callback, a raise_for_status coroutine,
+    closing the request body - each of which may be cancelled or fail: the response is then dropped, not leaked"""
+    _run(u, entry_only=False, final=True)
+
+
 @unit("C17", "canary.no_credentials_ever", functions=[f"{MOD}:ClientSession._request"], expect="canary")
 def canary_cred(u: U):
     """deliberately false: caller-supplied credentials are never sent at all"""
     _run(u, entry_only=False, canary=True)
 
 
-def _run(u: U, entry_only: bool, canary: bool = False):
+def _run(u: U, entry_only: bool, canary: bool = False, final: bool = False):
     from pyvc import PathEnd
 
     C = live()
@@ -464,6 +484,9 @@ def _run(u: U, entry_only: bool, canary: bool = False):
             return SAwait(name="trace.request_start", on_suspend=suspended)
 
         def __getattr__(self, name):
+            if name == "send_request_end" and final:
+                # user code awaited after the response exists: it may be cancelled (or time out) right here
+                return lambda *a, **k: SAwait(name="trace." + name, raises=(asyncio.CancelledError,))
             if name.startswith("send_"):
                 return lambda *a, **k: SAwait(name="trace." + name)
             raise AttributeError(name)
@@ -473,7 +496,7 @@ def _run(u: U, entry_only: bool, canary: bool = False):
                "_connector": _Connector(), "_skip_auto_headers": None, "_default_proxy": None,
                "_timeout": _TimeoutCfg(), "_loop": _Loop(), "_read_bufsize": 1, "_auto_decompress": True,
                "_max_line_size": 1, "_max_field_size": 1, "_max_headers": 1,
-               "_trace_configs": [_TraceCfg()] if entry_only and u.choose(2, "tracing_configured") else [],
+               "_trace_configs": [_TraceCfg()] if (final or (entry_only and u.choose(2, "tracing_configured"))) else [],
                "_retry_connection": u.bool("retry_connection"), "_trust_env": trust_env, "trust_env": trust_env,
                "_cookie_jar": _Jar(), "_request_class": request_class, "_response_class": None, "_middlewares": (),
                "_requote_redirect_url": True, "_raise_for_status": False},
@@ -510,7 +533,11 @@ def _run(u: U, entry_only: bool, canary: bool = False):
                 # the first URL may be ws(s) (ws_connect); every redirect TARGET must be http(s): non-HTTP refused
                 # ('' = scheme-less URL, treated as http by the connector; it is in HTTP_AND_EMPTY_SCHEMA_SET)
                 ("http", Or(url.scheme.is_one_of("", "http", "https"), And(ws_session, url.scheme.is_one_of("ws", "wss")))),
-                ("hist_released", released)]
+                ("hist_released", released),
+                # a response left in the local `resp` by an earlier hop has been released (its connection is not ours any
+                # more): the exception arm may close it again, which is then a no-op
+                ("resp_none_or_released", (L.get("resp") is None) or isinstance(L.get("resp"), _ReleasedResp)
+                 or "release" in getattr(L.get("resp"), "log", ("release",)))]
 
     def fresh_data(nm):
         return None if u.choose(2, "data@loop") == 0 else Body(u, log)
@@ -522,6 +549,7 @@ def _run(u: U, entry_only: bool, canary: bool = False):
                   "cookies": lambda nm: (None if u.choose(2, "cookies@loop") == 0 else "REQ-COOKIES-ARG"),
                   "data": fresh_data, "method": lambda nm: SymEnum(u, "method@loop", METHODS),
                   "params": lambda nm: {}, "retry_persistent_connection": lambda nm: u.bool("retry@loop"),
+                  "resp": lambda nm: (None if u.choose(2, "resp@loop") == 0 else _ReleasedResp()),
                   "req": lambda nm: None, "redirects": lambda nm: u.int("redirects@loop", 0)},
            at_back=lambda L: _table(u, G, L), at_head=(lambda L: _end()) if entry_only else None)
     m0 = SymEnum(u, "method", METHODS)
@@ -532,7 +560,7 @@ def _run(u: U, entry_only: bool, canary: bool = False):
         # the state at the loop head is havocked anyway: one representative way in
         cookies_arg, data_arg = None, None
     out = u.call(f, s, m0, "URL", params=None, data=data_arg, headers="H", cookies=cookies_arg,
-                 allow_redirects=u.bool("allow_redirects"), max_redirects=max_redirects, ssl=True)
+                 allow_redirects=False if final else u.bool("allow_redirects"), max_redirects=max_redirects, ssl=True)
     if entry_only:
         # paths that reach the loop are ended at its head; what arrives here was refused before the first request
         u.check("C17.entry.refused_before_any_request", (not out.ok) and not G["requests"],
@@ -551,6 +579,16 @@ def _run(u: U, entry_only: bool, canary: bool = False):
                                             C.InvalidUrlRedirectClientError, C.ClientPayloadError)):
             u.check("C17.history.failed_hop_released", "close" in r.log or "release" in r.log,
                     f"a refused redirect leaves its response closed or released ({type(e).__name__})")
+        if r is not None:
+            # From C18: "after a timeout or cancellation the connection is closed rather than reused, its pool slot is
+            # freed".  A response that _request obtained but does not hand to its caller is reachable by nobody else: on
+            # EVERY exceptional way out (cancellation or a timeout in a trace callback, in a raise_for_status coroutine,
+            # while closing the request body; any error while the redirect is worked out) it has been closed or released.
+            u.check("C18.cancel.response_not_handed_out_is_dropped", "close" in r.log or "release" in r.log,
+                    f"_request left by {type(e).__name__} with a response it had obtained: that response is closed or "
+                    "released (else its connection stays acquired for ever: with limit=1 the session is dead)",
+                    known=[("F18d", True)], witness={"exception": type(e).__name__},
+                    also_as=("C17.history.response_not_handed_out_is_dropped",))
 
 
 def _end():
